@@ -67,19 +67,31 @@ def make_schema():
     return schema
 
 
-def build_world_schema(deferred=None, error_lifetime="request", shared_fields=False):
+def build_world_schema(deferred=None, error_lifetime="request", shared_fields=False, scalar_style="function"):
     """Schema built in code so that the enum has internal values and the scalar a custom serialiser.
     deferred = "async": every resolver is a coroutine function that yields to the event loop a request-specific number of times
     (ctx["delays"]: seeded per request), so that sibling / list-item resolvers finish in varying orders."""
     from py_gql.exc import ResolverError
-    from py_gql.schema import (EnumType, EnumValue, Field, Int, InterfaceType, ListType, NonNullType, ObjectType, ScalarType,
+    from py_gql.schema import (Argument, EnumType, EnumValue, Field, Int, InterfaceType, ListType, NonNullType, ObjectType, ScalarType,
                                Schema, String, UnionType)
+
+    def fa_(tname, extra=False):
+        # a(d: Int = <the type's own default>): Int; Obj2 adds a further optional argument
+        return Field("a", Int, [Argument("d", Int, default_value=A_DEFAULT.get(tname, 0))] + ([Argument("x", Int)] if extra else []),
+                     resolver=None if tname == "I" else res("a"))
     E = EnumType("E", [EnumValue("A", value=101), EnumValue("B", value="bee")])
     Cust = ScalarType("Cust", serialize=lambda v: "cust:%s" % v, parse=lambda v: v)
+    if scalar_style == "subclass":
+        # gamma: the custom scalar is an application SUBCLASS of ScalarType that overrides the public serialize() method (the functions
+        # handed to the base constructor pass values through): leaf values are completed through that method
+        class CustType(ScalarType):
+            def serialize(self, value):
+                return "cust:%s" % (value,)
+        Cust = CustType("Cust", serialize=lambda v: v, parse=lambda v: v)
     reg = {}
 
     def res(name):
-        def r(root, ctx, info):
+        def r(root, ctx, info, **kw):
             w = ctx["world"]
             t = root.get("__t") if isinstance(root, dict) else "Query"
             if name == "a":
@@ -88,7 +100,7 @@ def build_world_schema(deferred=None, error_lifetime="request", shared_fields=Fa
                     # error_lifetime = "schema": the application raises one module-level constant (NOT_FOUND = ResolverError(...)) in
                     # every request it serves; what a response reports must still only depend on its own request
                     raise (reg if error_lifetime == "schema" else ctx).setdefault("_err_a", ResolverError("a failed"))
-                return 7
+                return 7 + kw["d"]
             if name == "s":
                 return None if w["nullS"] else "str"
             if name == "n":
@@ -110,59 +122,63 @@ def build_world_schema(deferred=None, error_lifetime="request", shared_fields=Fa
         if deferred == "async":
             import asyncio
 
-            async def ar(root, ctx, info):
+            async def ar(root, ctx, info, **kw):
                 d = ctx.get("delays")
                 for _ in range(d.randrange(0, 4) if d is not None else 0):
                     await asyncio.sleep(0)
-                return r(root, ctx, info)
+                return r(root, ctx, info, **kw)
             return ar
         return r
     if shared_fields:
         # the interface fields a and o are declared ONCE and the same Field objects are listed by I, Obj and Obj2; they have no
         # resolver of their own: each object type serves them through its type-level default resolver, which refuses roots of
         # the other type (a resolver looked up for one parent type must never serve another)
-        fa, fo = Field("a", Int), Field("o", lambda: reg["Obj"])
+        fa, fo = Field("a", Int, [Argument("d", Int, default_value=0)]), Field("o", lambda: reg["Obj"])
 
         def dres(tname):
-            def by_type(root, ctx, info):
+            def by_type(root, ctx, info, **kw):
                 if not isinstance(root, dict) or root.get("__t") != tname:
                     raise RuntimeError("default resolver of %s used for a value of type %r" % (tname, root.get("__t") if isinstance(root, dict) else root))
-                return res(info.field_definition.name)(root, ctx, info)
+                return res(info.field_definition.name)(root, ctx, info, **kw)
             return by_type
         I = InterfaceType("I", [fa, fo])
         reg["Obj"] = ObjectType("Obj", lambda: [fa, Field("s", NonNullType(String), resolver=res("s")), Field("e", E, resolver=res("e")), fo],
                                 interfaces=[I], default_resolver=dres("Obj"))
         reg["Obj2"] = ObjectType("Obj2", lambda: [fa, Field("n", String, resolver=res("n")), fo], interfaces=[I], default_resolver=dres("Obj2"))
         U = UnionType("U", [reg["Obj"], reg["Obj2"]])
-        Q = ObjectType("Query", [Field("a", Int, resolver=res("a")), Field("s", NonNullType(String), resolver=res("s")),
+        Q = ObjectType("Query", [fa_("Query"), Field("s", NonNullType(String), resolver=res("s")),
                                  Field("e", E, resolver=res("e")), Field("c", Cust, resolver=res("c")), Field("o", reg["Obj"], resolver=res("o")),
                                  Field("i", I, resolver=res("i")), Field("u", U, resolver=res("u")), Field("os", ListType(reg["Obj"]), resolver=res("os")), Field("is", ListType(I), resolver=res("is"))])
         return Schema(Q, types=[reg["Obj"], reg["Obj2"], U, I])
-    I = InterfaceType("I", lambda: [Field("a", Int), Field("o", reg["Obj"])])
-    reg["Obj"] = ObjectType("Obj", lambda: [Field("a", Int, resolver=res("a")), Field("s", NonNullType(String), resolver=res("s")),
+    I = InterfaceType("I", lambda: [fa_("I"), Field("o", reg["Obj"])])
+    reg["Obj"] = ObjectType("Obj", lambda: [fa_("Obj"), Field("s", NonNullType(String), resolver=res("s")),
                                              Field("e", E, resolver=res("e")), Field("o", reg["Obj"], resolver=res("o"))], interfaces=[I])
-    reg["Obj2"] = ObjectType("Obj2", lambda: [Field("a", Int, resolver=res("a")), Field("n", String, resolver=res("n")),
+    reg["Obj2"] = ObjectType("Obj2", lambda: [fa_("Obj2", extra=True), Field("n", String, resolver=res("n")),
                                                Field("o", reg["Obj"], resolver=res("o"))], interfaces=[I])
     U = UnionType("U", [reg["Obj"], reg["Obj2"]])
-    Q = ObjectType("Query", [Field("a", Int, resolver=res("a")), Field("s", NonNullType(String), resolver=res("s")),
+    Q = ObjectType("Query", [fa_("Query"), Field("s", NonNullType(String), resolver=res("s")),
                              Field("e", E, resolver=res("e")), Field("c", Cust, resolver=res("c")), Field("o", reg["Obj"], resolver=res("o")),
                              Field("i", I, resolver=res("i")), Field("u", U, resolver=res("u")), Field("os", ListType(reg["Obj"]), resolver=res("os")), Field("is", ListType(I), resolver=res("is"))])
     return Schema(Q, types=[reg["Obj"], reg["Obj2"], U, I])
 
 
-def conv_data(data):
+A_DEFAULT = {"Query": 0, "Obj": 1, "Obj2": 2}        # default of a's argument d, per declaring type
+
+
+def conv_data(data, per_type=True):
     out = []
     for kv in data:
-        out.append([kv["key"], conv_val(kv["v"])])
+        out.append([kv["key"], conv_val(kv["v"], per_type)])
     return out
 
 
-def conv_val(v):
+def conv_val(v, per_type=True):
     k = v["k"]
     if k == "null":
         return None
     if k == "int":
-        return 7
+        # the resolver of `a` returns 7 + d; with ONE Field object shared by I, Obj and Obj2 there is one default (0)
+        return 7 + (A_DEFAULT[v.get("of", "Query")] if per_type else 0)
     if k == "strv":
         return "str"
     if k == "str":
@@ -172,9 +188,9 @@ def conv_val(v):
     if k == "cust":
         return "cust:5"
     if k == "obj":
-        return conv_data(v["fs"])
+        return conv_data(v["fs"], per_type)
     if k == "list":
-        return [conv_val(x) for x in v["items"]]
+        return [conv_val(x, per_type) for x in v["items"]]
     raise ValueError(k)
 
 
@@ -205,7 +221,7 @@ def _worker(args):
     behs, seed = args
     from py_gql import graphql_blocking, process_graphql_query
     rng = random.Random(seed)
-    shared = build_world_schema(error_lifetime="schema")
+    shared = build_world_schema(error_lifetime="schema", scalar_style="subclass")
     shared_fields = build_world_schema(shared_fields=True)
     out = {}
     n = 0
@@ -223,11 +239,13 @@ def _worker(args):
             if uses_frag(sel, fr):
                 q += "\n" + text
         variables = {"v": w["v"]} if var else None
-        xdata = conv_data(b["r"]["data"])
+        xdata_types = conv_data(b["r"]["data"])
+        xdata_shared = conv_data(b["r"]["data"], per_type=False)
         xerrs = sorted((tuple(p) for p in b["r"]["errs"]), key=repr)
         fresh_dicts = {}
         for schema_kind in ("fresh", "long-lived", "shared-field-objects"):
             schema = build_world_schema() if schema_kind == "fresh" else shared if schema_kind == "long-lived" else shared_fields
+            xdata = xdata_shared if schema_kind == "shared-field-objects" else xdata_types
             for exe in ("optimised", "generic"):
                 n += 1
                 wit = {"query": q, "variables": variables, "world": w, "executor": exe, "schema": schema_kind}
